@@ -33,7 +33,8 @@ REPLAY_DIR = os.path.join(_OUT, "replays")
 KNOWN_FILE = os.path.join(VERIF, "known_findings.jsonl")
 
 NPROC = int(os.environ.get("VERIF_JOBS", "0")) or min(16, os.cpu_count() or 1)
-MAX_SHRINK_PER_ITEM = 6      # violations shrunk per work item (others are still reported raw)
+MAX_SHRINK_PER_ITEM = 2      # violations shrunk per work item (others are still reported raw)
+MAX_VIOLATIONS = 300         # stop exploring once this many violations were collected (the run has failed anyway)
 MAX_REPORTED = 40            # VIOLATION lines printed
 
 
@@ -52,7 +53,7 @@ class HarnessError(Exception):
 # --------------------------------------------------------------------------------------
 # shrinking
 
-def shrink(driver, viol, budget=400):
+def shrink(driver, viol, budget=150):
     """Greedy shrink to a fixed point: keep a candidate while the *same clause* still fails."""
     cands = getattr(driver, "shrink_candidates", None)
     if cands is None:
@@ -176,6 +177,10 @@ def run(driver_name, tier, seed, quiet=False):
             if len(agg["samples"]) < 6:
                 agg["samples"].extend(res.get("samples", [])[:2])
             agg["violations"].extend(res.get("violations", []))
+            if len(agg["violations"]) >= MAX_VIOLATIONS:
+                agg["extra"]["stopped_early_after_violations"] = len(agg["violations"])
+                pool.terminate()
+                break
             for k2, v in res.get("extra", {}).items():
                 if isinstance(v, (int, float)):
                     agg["extra"][k2] = max(agg["extra"].get(k2, v), v)
@@ -250,6 +255,8 @@ def run(driver_name, tier, seed, quiet=False):
     # --- evidence ---------------------------------------------------------------------------
     wall = time.time() - t0
     cov = driver.coverage(agg, tier)
+    if agg["extra"].get("stopped_early_after_violations"):
+        cov["exhaustive"] = False       # the run was cut short after many violations
     cov.setdefault("samples", agg["samples"][:6])
     cov.setdefault("work_items", len(items))
     cov.setdefault("distinct_outcomes", len(agg["outcomes"]))
